@@ -8,5 +8,6 @@ OpsCore    == {"add", "remove", "tryGet", "putOnCooldown"}
 OpsWait    == {"add", "remove", "next", "putOnCooldown"}
 OpsAll     == AllOps
 OpsNoRemove == {"add", "tryGet", "putOnCooldown"}
+OpsAddNext == {"add", "next"}
 OpsDeadlock == {"add", "putOnCooldown"}
 =============================================================================
